@@ -41,6 +41,10 @@ TExpImp == /\ IsEv("ExpImp") /\ Recs[l].i \in 1..Len(srv)
            /\ srv' = ExpImpSt(srv, Recs[l].i)
            /\ steps' = steps + 1 /\ UNCHANGED <<vals, pks>>
 
+TSync == /\ IsEv("Sync") /\ Recs[l].i \in 1..Len(srv) /\ Recs[l].j \in 1..Len(srv) /\ Recs[l].i # Recs[l].j
+         /\ srv' = SyncSt(srv, Recs[l].i, Recs[l].j)
+         /\ steps' = steps + 1 /\ UNCHANGED <<vals, pks>>
+
 TPk == /\ IsEv("Pk")
        /\ LET r == Recs[l]
               k == srv[r.i].key
@@ -59,7 +63,7 @@ TEval ==
              ELSE vals' = vals
   /\ UNCHANGED <<srv, steps, pks>>
 
-TraceNext == TReset \/ TNew \/ TPuncture \/ TClone \/ TExpImp \/ TPk \/ TEval
+TraceNext == TReset \/ TNew \/ TPuncture \/ TClone \/ TExpImp \/ TSync \/ TPk \/ TEval
 TraceSpec == TraceInit /\ [][TraceNext]_tvars
 
 \* invariants of the specification evaluated on every state of the trace
